@@ -545,7 +545,7 @@ func ruleC08Steps(p *Prog, a *Anchors, r *Report) {
 			// innermost loop header dominating the store whose loop contains it
 			var hdr *ssa.BasicBlock
 			for _, h := range parser.Blocks {
-				if !h.Dominates(b) || !ReachableBlocks(b)[h] {
+				if !h.Dominates(b) {
 					continue
 				}
 				back := false
